@@ -2,7 +2,7 @@
 import os
 import vf
 
-MODEL_VOS = ["Base/Conv.vo", "DD/Table.vo", "DD/TableExtra.vo", "DD/Sem.vo", "Num/I64.vo", "DD/FamSpec.vo", "DD/ZbddOps.vo", "DD/ZbddVars.vo", "Mgr/SortOrder.vo", "Mgr/LevelSwap.vo", "Mgr/LevelSwapC.vo", "Mgr/LevelSwapZ.vo", "Mgr/LevelSwapT.vo", "DD/BuildCanon.vo", "Mgr/Terminals.vo", "DD/Tdd.vo", "DD/ApplyTdd.vo", "DD/TddAudit.vo", "Mgr/TddHist.vo", "DD/SatCount.vo", "Num/F64Count.vo", "DD/SatCountF64.vo"]
+MODEL_VOS = ["Base/Conv.vo", "DD/Table.vo", "DD/TableExtra.vo", "DD/Sem.vo", "Num/I64.vo", "DD/FamSpec.vo", "DD/ZbddOps.vo", "DD/ZbddVars.vo", "Mgr/SortOrder.vo", "Mgr/LevelSwap.vo", "Mgr/LevelSwapC.vo", "Mgr/LevelSwapZ.vo", "Mgr/LevelSwapT.vo", "DD/BuildCanon.vo", "Mgr/Terminals.vo", "DD/Tdd.vo", "DD/ApplyTdd.vo", "DD/TddAudit.vo", "Mgr/TddHist.vo", "DD/SatCount.vo", "Num/F64Count.vo", "DD/SatCountF64.vo", "DD/IsoCheck.vo"]
 DRIVER_EXTRA = ["dd_types.ml", "order.ml", "zchain.ml", "pick.ml", "zfam.ml", "lswap.ml", "tmgr.ml", "tddh.ml"]
 # case kinds of other harnesses that share a corpus directory with DD cases (h_nat of C12)
 NON_DD_KINDS = ("nat", "sat64", "sat128", "f64")
